@@ -10,15 +10,17 @@ pub uninterp spec fn dur_ns(d: Duration) -> nat;
 pub uninterp spec fn spec_from_millis(ms: u64) -> Duration;
 pub assume_specification [ Duration::from_millis ] (ms: u64) -> (d: Duration)
     ensures d == spec_from_millis(ms), dur_ns(d) == ms as nat * 1_000_000;
-pub broadcast axiom fn axiom_instant_add(i: Instant, d: Duration)
-    ensures
-        #[trigger] <Instant as AddSpec<Duration>>::add_req(i, d),
-        <Instant as AddSpec<Duration>>::obeys_add_spec(),
-        inst_ns(<Instant as AddSpec<Duration>>::add_spec(i, d)) == inst_ns(i) + dur_ns(d);
+pub broadcast axiom fn axiom_instant_add_req(i: Instant, d: Duration)
+    ensures #[trigger] <Instant as AddSpec<Duration>>::add_req(i, d);
+pub broadcast axiom fn axiom_instant_add_obeys()
+    ensures #[trigger] <Instant as AddSpec<Duration>>::obeys_add_spec();
+pub broadcast axiom fn axiom_instant_add_val(i: Instant, d: Duration)
+    ensures inst_ns(#[trigger] <Instant as AddSpec<Duration>>::add_spec(i, d)) == inst_ns(i) + dur_ns(d);
+pub broadcast axiom fn axiom_instant_cmp_obeys()
+    ensures #[trigger] <Instant as PartialOrdSpec<Instant>>::obeys_partial_cmp_spec();
 pub broadcast axiom fn axiom_instant_cmp(a: Instant, b: Instant)
-    ensures
-        <Instant as PartialOrdSpec<Instant>>::obeys_partial_cmp_spec(),
-        #[trigger] <Instant as PartialOrdSpec<Instant>>::partial_cmp_spec(&a, &b) == Some(if inst_ns(a) < inst_ns(b) { core::cmp::Ordering::Less } else if inst_ns(a) == inst_ns(b) { core::cmp::Ordering::Equal } else { core::cmp::Ordering::Greater });
+    ensures #[trigger] <Instant as PartialOrdSpec<Instant>>::partial_cmp_spec(&a, &b) == Some(if inst_ns(a) < inst_ns(b) { core::cmp::Ordering::Less } else if inst_ns(a) == inst_ns(b) { core::cmp::Ordering::Equal } else { core::cmp::Ordering::Greater });
+pub broadcast group group_instant { axiom_instant_add_req, axiom_instant_add_obeys, axiom_instant_add_val, axiom_instant_cmp_obeys, axiom_instant_cmp }
 // two Instants at the same point are the same Instant (Instant is a plain (secs, nanos) pair)
 pub broadcast axiom fn axiom_instant_ext(a: Instant, b: Instant)
     ensures #[trigger] inst_ns(a) == #[trigger] inst_ns(b) ==> a == b;
